@@ -6,8 +6,10 @@ import (
 	"encoding/hex"
 	"errors"
 	"fmt"
+	"io"
 	"os"
 	"os/exec"
+	"os/signal"
 	"path/filepath"
 	"strings"
 	"sync"
@@ -110,6 +112,57 @@ func FsChild(args []string) int {
 			return 4
 		}
 		return 0
+	case "efbig":
+		// real write failures from the OS: the file size limit of this process is <limit> bytes and SIGXFSZ is ignored, so
+		// a write crossing the limit fails with EFBIG (possibly after a short write).  Puts and streams of sizes around the
+		// limit; one line per operation: <keyhex> <len> ok|err
+		var limit, seed uint64
+		fmt.Sscan(args[2], &limit)
+		fmt.Sscan(args[3], &seed)
+		signal.Ignore(syscall.SIGXFSZ)
+		if err := syscall.Setrlimit(syscall.RLIMIT_FSIZE, &syscall.Rlimit{Cur: limit, Max: limit}); err != nil {
+			fmt.Fprintln(os.Stderr, err)
+			return 3
+		}
+		r := core.NewRand(seed, "c18-efbig")
+		for i := 0; i < 12; i++ {
+			size := int(limit) - 3 + r.Intn(7)
+			switch r.Intn(4) {
+			case 0:
+				size = r.Intn(int(limit) + 1)
+			case 1:
+				size = int(limit) + 1 + r.Intn(3*int(limit)+70000)
+			}
+			if size < 0 {
+				size = 0
+			}
+			key := fmt.Sprintf("efbig-%d-%d", seed, i)
+			content := efbigContent(seed, i, size)
+			var err error
+			if r.Bool() {
+				err = st.Put(ctx, key, content)
+			} else {
+				var w io.Writer
+				var commit func(string) error
+				if w, commit, err = st.PutStream(ctx); err == nil {
+					chunk := 1 + r.Intn(5000)
+					for lo := 0; lo < len(content) && err == nil; lo += chunk {
+						_, err = w.Write(content[lo:min(lo+chunk, len(content))])
+					}
+					if err == nil {
+						err = commit(key)
+					} else {
+						commit("")
+					}
+				}
+			}
+			res := "ok"
+			if err != nil {
+				res = "err"
+			}
+			fmt.Printf("%s %d %s\n", hex.EncodeToString([]byte(key)), size, res)
+		}
+		return 0
 	case "loop":
 		var seed uint64
 		fmt.Sscan(args[2], &seed)
@@ -119,6 +172,10 @@ func FsChild(args []string) int {
 		}
 	}
 	return 2
+}
+
+func efbigContent(seed uint64, i, size int) []byte {
+	return core.NewRand(seed, fmt.Sprintf("c18-efbig-content-%d", i)).Bytes(size)
 }
 
 // the content committed for key number i of a seed (write-once: a key always gets the same content)
@@ -354,6 +411,151 @@ func runC18(c *core.Ctx) error {
 		c18Inspect(c, d, committed, caseID)
 		c.Count(caseID, true)
 		c.Dist("race")
+	}
+	// --- (v) interleaved streaming writers over several Store values on one directory --------------
+	for round := 0; round < c.Pick(40, 2000); round++ {
+		d := newDir()
+		r := c.Rand.Fork()
+		var stores []*fsstore.Store
+		for i := 0; i < 1+r.Intn(3); i++ {
+			st, err := newFsStore(d)
+			if err != nil {
+				return err
+			}
+			stores = append(stores, st)
+		}
+		type stream struct {
+			key     string
+			content []byte
+			w       io.Writer
+			commit  func(string) error
+			pos     int
+			done    bool
+		}
+		var ss []*stream
+		committed := map[string][]byte{}
+		var hist []string
+		opFailed := func(what string, err error) {
+			c.Fail("C18/stream-operation-fails", core.Replay{Kind: "oracle", Case: fmt.Sprintf("c18.streams round=%d: %s", round, strings.Join(hist, " ")), Impl: what + ": " + err.Error(),
+				Expected: "success", Detail: "a streaming write or commit fails although no fault was injected (writers disturb each other)"})
+		}
+		verify := func(when string) {
+			for k, want := range committed {
+				for si, st := range stores {
+					got, err := st.Get(ctx, k)
+					if err != nil || !bytes.Equal(got, want) {
+						c.Fail("C18/partial-or-mixed-block", core.Replay{Kind: "oracle", Case: fmt.Sprintf("c18.streams round=%d: %s", round, strings.Join(hist, " ")),
+							Impl: fmt.Sprintf("%s: store %d reads %d bytes (err %v) under key %q", when, si, len(got), err, k), Expected: fmt.Sprintf("the %d committed bytes", len(want)),
+							Detail: "a committed block changed, or was committed with another writer's bytes"})
+						delete(committed, k)
+					}
+				}
+			}
+		}
+		n := 2 + r.Intn(4)
+		for i := 0; i < n; i++ {
+			si := r.Intn(len(stores))
+			w, commit, err := stores[si].PutStream(ctx)
+			if err != nil {
+				return err
+			}
+			ss = append(ss, &stream{key: fmt.Sprintf("k%d-%d", round, i), content: r.Bytes(1 + r.Intn(3000)), w: w, commit: commit})
+			hist = append(hist, fmt.Sprintf("open%d@s%d", i, si))
+			// interleave: some writes of any open stream, possibly a commit
+			for k := r.Intn(4); k > 0; k-- {
+				x := ss[r.Intn(len(ss))]
+				if x.done {
+					continue
+				}
+				if x.pos < len(x.content) && !r.Chance(1, 5) {
+					hi := min(x.pos+1+r.Intn(1500), len(x.content))
+					if _, err := x.w.Write(x.content[x.pos:hi]); err != nil {
+						opFailed("write "+x.key, err)
+						x.done = true
+						continue
+					}
+					x.pos = hi
+					hist = append(hist, fmt.Sprintf("w%s", x.key))
+				} else if x.pos == len(x.content) {
+					if err := x.commit(x.key); err != nil {
+						opFailed("commit "+x.key, err)
+						x.done = true
+						continue
+					}
+					x.done = true
+					committed[x.key] = x.content
+					hist = append(hist, fmt.Sprintf("commit%s", x.key))
+					verify("after " + hist[len(hist)-1])
+				}
+			}
+		}
+		for _, x := range ss {
+			if x.done {
+				continue
+			}
+			if r.Chance(1, 5) {
+				x.commit("") // abandoned
+				hist = append(hist, "abandon"+x.key)
+				continue
+			}
+			if _, err := x.w.Write(x.content[x.pos:]); err != nil {
+				opFailed("write "+x.key, err)
+				continue
+			}
+			if err := x.commit(x.key); err != nil {
+				opFailed("commit "+x.key, err)
+				continue
+			}
+			committed[x.key] = x.content
+			hist = append(hist, "finish"+x.key)
+			verify("after " + hist[len(hist)-1])
+		}
+		verify("at the end")
+		caseID := fmt.Sprintf("c18.streams round=%d stores=%d: %s", round, len(stores), strings.Join(hist, " "))
+		c18Inspect(c, d, committed, caseID)
+		c.Count(caseID, len(ss) >= 2)
+		c.Dist(fmt.Sprintf("streams:stores=%d", len(stores)))
+	}
+	// --- (vi) write failures reported by the OS itself (file size limit in a child process) ---------
+	for round := 0; round < c.Pick(6, 150); round++ {
+		d := newDir()
+		limit := uint64(1 + c.Rand.Intn(9000))
+		if round%3 == 0 {
+			limit = uint64(4096 * (1 + c.Rand.Intn(4)))
+		}
+		seed := c.Seed*7919 + uint64(round)
+		out, err := exec.Command(selfExe(), "fs-child", "efbig", d, fmt.Sprint(limit), fmt.Sprint(seed)).Output()
+		caseID := fmt.Sprintf("c18.efbig limit=%d seed=%d", limit, seed)
+		if err != nil {
+			return fmt.Errorf("%s: child failed: %v", caseID, err)
+		}
+		st, err := newFsStore(d)
+		if err != nil {
+			return err
+		}
+		for i, line := range strings.Split(strings.TrimSpace(string(out)), "\n") {
+			var kh, res string
+			var size int
+			if _, err := fmt.Sscan(line, &kh, &size, &res); err != nil {
+				return fmt.Errorf("%s: bad child line %q", caseID, line)
+			}
+			kb, _ := hex.DecodeString(kh)
+			want := efbigContent(seed, i, size)
+			got, gerr := st.Get(ctx, string(kb))
+			switch {
+			case res == "ok" && (gerr != nil || !bytes.Equal(got, want)):
+				c.Fail("C18/partial-or-mixed-block", core.Replay{Kind: "oracle", Case: caseID, Impl: fmt.Sprintf("put %d of %d bytes reported success; the key reads %d bytes (err %v)", i, size, len(got), gerr),
+					Expected: fmt.Sprintf("the complete %d bytes", size), Detail: "a write the OS refused (EFBIG) went unreported and a truncated block was committed"})
+			case res == "err" && gerr == nil:
+				c.Fail("C18/partial-or-mixed-block", core.Replay{Kind: "oracle", Case: caseID, Impl: fmt.Sprintf("put %d of %d bytes reported an error but the key reads %d bytes", i, size, len(got)),
+					Expected: "absent"})
+			case res == "ok" && uint64(size) > limit:
+				return fmt.Errorf("%s: a put of %d bytes succeeded under a file size limit of %d: the limit is not effective here", caseID, size, limit)
+			}
+			c.Dist("efbig:" + res)
+		}
+		c.Count(caseID, true)
+		c.Dist("fault:efbig")
 	}
 	// --- (iv) SIGKILL at random instants (thorough) ---------------------------------------------
 	for round := 0; round < c.Pick(3, 150); round++ {
